@@ -105,8 +105,9 @@ def handle (j : Json) : Json :=
     | some ps => Json.mkObj [("paths", encPaths ps)]
     | none => Json.mkObj [("err", .str "could not find field for point")]
   | "select" =>
-    -- {"possible":[..],"configured":[..],"parent":"A","internal":"gw"}; the priority order is the one read from plan.go
-    match Sel.selectLocation Gen.selectLoc (strList j "possible") (strList j "configured") (getStr j "parent") (getStr j "internal") with
+    -- {"possible":[..],"configured":[..],"parent":"A","internal":"gw"}; the specified rule (= what plan.go denotes
+    -- whenever Props.C20.facts_safe holds, Sel.selectLocation_of_safe)
+    match Sel.selectLocation Sel.spec (strList j "possible") (strList j "configured") (getStr j "parent") (getStr j "internal") with
     | some l => Json.mkObj [("loc", .str l)]
     | none => Json.mkObj [("loc", .null)]
   | op => Json.mkObj [("bad-op", .str op)]
